@@ -429,6 +429,9 @@ func (t *Tpl) writeNode(w io.Writer, node *node, ctx *Ctx) (err error) {
 				err = ErrCondHlpNotFound
 				return
 			}
+			// The verdict of a helper depends on its arguments only: an error left by an earlier node (a failed
+			// comparison, a modifier that failed in a print tag) is not this condition's.
+			ctx.Err = nil
 			// Prepare arguments list.
 			ctx.bufA = ctx.bufA[:0]
 			if n := len(node.condHlpArg); n > 0 {
@@ -563,6 +566,8 @@ func (t *Tpl) writeNode(w io.Writer, node *node, ctx *Ctx) (err error) {
 							err = ErrCondHlpNotFound
 							return
 						}
+						// See the condition node: an error left by an earlier node is not this case's.
+						ctx.Err = nil
 						// Prepare arguments list.
 						ctx.bufA = ctx.bufA[:0]
 						if n := len(ch.caseHlpArg); n > 0 {
